@@ -328,6 +328,10 @@ def families(tier='quick'):
     # identifiers that are pairs of numbers (row, column of a grid)
     fams.append(('chain (0, 0) - (0, 1) - (1, 1): identifiers that are pairs of numbers', [(0, 0), (0, 1), (1, 1)], [(0, (0, 0), (0, 1), 0, 1), (1, (0, 1), (1, 1), 1, 3)]))
     fams.append(('triangle 0, 2**61 - 1, 7: identifiers with equal hashes', [0, 2 ** 61 - 1, 7], [(0, 0, 2 ** 61 - 1, 1, 1), (1, 2 ** 61 - 1, 7, 1, 1), (2, 0, 7, 0, 3)]))
+    # a dense one-way multigraph with parallel edges of decreasing weight: many decrease-key updates of the same node between two pops
+    # of the frontier (the priority queue must keep its heap order through them)
+    fams.append(('six nodes, ten edges: parallel one-way edges of decreasing weight, zero-weight links', [1, 2, 3, 4, 5, 6],
+                 [(0, 3, 5, 1, 1), (1, 3, 2, 1, 15), (2, 3, 5, 1, 0), (3, 1, 6, 1, 16), (4, 1, 3, 0, 9), (5, 3, 4, 1, 2), (6, 1, 4, 1, 13), (7, 4, 6, 1, 0), (8, 3, 2, 1, 10), (9, 5, 2, 1, 8)]))
     if tier == 'thorough':
         for (o1, o2, o3) in itertools.product(ORI, repeat=3):
             for (w1, w2, w3) in itertools.product(W, repeat=3):
